@@ -45,9 +45,14 @@ def entry_at(s, p):
     """(term, cmd) a node holds in its log at position p, or None."""
     if s.first is None or p < s.first or p > s.last:
         return None
-    e = s.log[p - s.first]
-    if e[0] != p:
-        return ('bad-index', e)
+    i = p - s.first
+    if i >= len(s.log) or s.log[i][0] != p:
+        # a log with holes (only ever seen under seeded changes; the log-not-consecutive oracle reports it)
+        for e in s.log:
+            if e[0] == p:
+                return (e[1], e[2])
+        return None
+    e = s.log[i]
     return (e[1], e[2])
 
 
